@@ -361,9 +361,11 @@ impl<'a> Iterator for CommentIter<'a> {
                 self.src = &self.src[comment_line.len()..];
                 self.src = if self.src.starts_with("\r\n") {
                     &self.src[2..]
-                } else {
-                    // \n
+                } else if self.src.starts_with('\n') {
                     &self.src[1..]
+                } else {
+                    // The comment ends the text without a newline
+                    self.src
                 };
                 Some(comment_line)
             } else if self.src.starts_with("/*") {
@@ -391,14 +393,17 @@ impl<'a> DoubleEndedIterator for CommentIter<'a> {
                 .src
                 .trim_end_matches(|c: char| c.is_whitespace() && c != '\n');
             if self.src.ends_with('\n') {
-                let comment_line = self.src[..self.src.len() - 1].lines().next_back()?;
-                let trimmed = comment_line.trim_start();
-
                 let newline_len = if self.src.ends_with("\r\n") { 2 } else { 1 };
                 self.src = &self.src[..(self.src.len() - newline_len)];
 
+                // The line which the newline terminated
+                let line_start = self.src.rfind('\n').map_or(0, |i| i + 1);
+                let trimmed = self.src[line_start..].trim_start();
+
                 if trimmed.starts_with("//") && !trimmed.starts_with("///") {
-                    self.src = &self.src[..(self.src.len() - 2 - trimmed.len() - 1)];
+                    // Only remove the comment itself so that the lines before it are still there
+                    // for the following calls
+                    self.src = &self.src[..(self.src.len() - trimmed.len())];
                     Some(trimmed)
                 } else {
                     Some("")
